@@ -169,6 +169,7 @@ fn main() {
         "typed" => vharness::typed::run(seed, n, thorough, &corpus, &dir),
         "comp" => vharness::comp::run(seed, n, thorough, &corpus, &dir),
         "fdec" => vharness::fdec::run(seed, n, thorough, &corpus, &dir),
+        "sfr" => vharness::sfr::run(seed, n, thorough, &corpus, &dir),
         "ovs" => vharness::ovs::run(seed, n, thorough, &corpus, &dir),
         "saslx" => vharness::saslx::run(seed, n, thorough, &corpus, &dir),
         "hreuse" => vharness::hreuse::run(seed, n, thorough, &corpus, &dir),
